@@ -484,14 +484,14 @@ theorem sys_run_proj (k : Nat) (ops : List (Nat × Op)) : ∀ s : Sys,
 
 /-! ### How the state of a box can change in one step -/
 
-/-- Shape of what one step does to the state. -/
-def StepShape (b : Box) (b' : Box) (evs : List Ev) : Prop :=
+/-- Shape of what one step does to the state (`ok` = the callback's result). -/
+def StepShape (b : Box) (b' : Box) (evs : List Ev) (ok : Bool) : Prop :=
   (evs = [] ∧ b'.state = b.state) ∨
-  (∃ ns us ok, evs = [.apply ns us ok] ∧ chain b.state us = some ns ∧ us ≠ [] ∧
+  (∃ ns us, evs = [.apply ns us ok] ∧ chain b.state us = some ns ∧ us ≠ [] ∧
       b'.state = if ok then ns else b.state)
 
 theorem applyPending_shape (b : Box) (ok : Bool) (b0 : Box) (hs : b.state = b0.state) :
-    StepShape b0 (applyPending b ok).1 (applyPending b ok).2 := by
+    StepShape b0 (applyPending b ok).1 (applyPending b ok).2 ok := by
   unfold applyPending StepShape
   rw [← hs]
   have hc := walk_chain (sortByStart b.pending) b.state
@@ -500,11 +500,11 @@ theorem applyPending_shape (b : Box) (ok : Bool) (b0 : Box) (hs : b.state = b0.s
   · simp [he]
   · have hne : r.1 ≠ [] := by simpa using he
     cases ok
-    · right; exact ⟨r.2.1, r.1, false, by simp [he], hc, hne, by simp [he]⟩
-    · right; exact ⟨r.2.1, r.1, true, by simp [he], hc, hne, by simp [he]⟩
+    · right; exact ⟨r.2.1, r.1, by simp [he], hc, hne, by simp [he]⟩
+    · right; exact ⟨r.2.1, r.1, by simp [he], hc, hne, by simp [he]⟩
 
 theorem handle_shape (b : Box) (u : Upd) (ok : Bool) :
-    StepShape b (handle b u ok).1 (handle b u ok).2 := by
+    StepShape b (handle b u ok).1 (handle b u ok).2 ok := by
   unfold handle
   split
   · left; simp
@@ -520,8 +520,8 @@ theorem handle_shape (b : Box) (u : Upd) (ok : Bool) :
         split
         · exact applyPending_shape _ ok b rfl
         · cases ok
-          · right; exact ⟨u.state, [u], false, by simp, by simp [chain, ha], by simp, by simp⟩
-          · right; exact ⟨u.state, [u], true, by simp, by simp [chain, ha], by simp, by simp⟩
+          · right; exact ⟨u.state, [u], by simp, by simp [chain, ha], by simp, by simp⟩
+          · right; exact ⟨u.state, [u], by simp, by simp [chain, ha], by simp, by simp⟩
       · split
         · exact applyPending_shape _ ok b rfl
         · left; simp
